@@ -21,6 +21,15 @@ table of `API.configure`, `parseReady`/`generateOutcome` = target readiness) is 
      parsed and asked to generate any number of times in any interleaving, contexts made anew in between; each context writes
      below its own output directories, so that what a `generate` wrote tells whose settings the generators worked with.
 
+  I  malformed values x sources x combinations: every kind of malformed value the check knows (ill-typed, out of an enumeration, a key that
+     does not exist, a text or a key that is not valid Unicode — lone surrogates, as the JSON / YAML decoders make them of escapes and
+     `argv` / the environment of undecodable bytes — in a free text, a path, an item of a list, where an enumerator or a boolean is
+     expected) as ONE assignment `key := bad value` of an otherwise valid tree, delivered through every source that can express it
+     (options dict, `-o` through the real click command, YAML / YML / JSON / TOML file incl. lexical styles, environment variable, `.env`
+     line) while the rest of the tree travels through another one; and in combination with a valid value for the same key in a second
+     source: bad below good (the effective configuration is valid: accepted, equal to the valid tree) and good below bad (refused), for
+     every pair of sources of different precedence (options / `-o` over file over environment over `.env`).
+
 A file format is a language, not one serialiser's output: in B, C and G every tree is also written in other *lexical styles* of
 each format (`cfgsys.STYLES`: JSON indented with spaces / tabs / not at all, compact or wide separators, non-ASCII and non-BMP
 characters escaped or literal, every character escaped, key order, CRLF, padding; YAML block / flow / quoted / canonical / folded /
@@ -37,7 +46,9 @@ dict that reaches validation is the key-wise override (`mergeSpec`, Lean op `c17
 with the documented diagnostic (141 / 2 / 120) — never another exception class — and corrupted or insufficient
 configurations are refused; (S4) in a history every request is answered as if it were the only one: an insufficient configuration
 is refused *every* time, the refusal names a key that is indeed missing (`generate`, or `generate.<generator>` without a section),
-and a `generate` that runs writes below the requesting context's output directories only.
+and a `generate` that runs writes below the requesting context's output directories only; (S5) the verdict follows the *effective*
+configuration: a malformed value is refused with 141 by a diagnostic that names its key whichever source delivered it, unless a source of
+higher precedence replaces it with a valid one — then the configuration is the valid tree's.
 """
 from __future__ import annotations
 
@@ -62,6 +73,8 @@ THEOREMS = [_T + n for n in [
     "parse_unready_refused", "parse_without_generate_refused", "generate_unready_refused", "generate_unconfigured_refused",
     "generate_fails_cleanly_partial", "generate_glue_without_cpp_counterexample",
     "history_free", "runReqs_length", "parse_refusal_names_missing", "parseStep_outcome", "generateStep_spec",
+    "encodable_combine", "unencodable_override_stays", "assign_assign", "badKeys_nil_iff",
+    "configure_checks_the_merge", "configure_unencodable_options_refused", "overridden_file_text_not_refused",
 ]]
 LEVEL = "proof"
 TRUSTED = [
@@ -214,6 +227,11 @@ def model_request(case: dict) -> dict:
     req["env"] = cfgsys.decode_env(case.get("env"))
     req["dotenv"] = cfgsys.decode_env(case.get("dotenv_vars"))
     return req
+
+
+def env_refused(case: dict) -> list:
+    """variables that pydantic-settings' environment / `.env` source refuses while gathering (part of the validation verdict, a parameter)"""
+    return cfgsys.undecodable_env(case.get("env")) + cfgsys.undecodable_env(case.get("dotenv_vars"))
 
 
 def same_obs(a: dict, b: dict) -> bool:
@@ -483,6 +501,13 @@ def build_plan(ctx) -> Plan:
     add_entry(P, {"part": "F", "sections": None, "idl": "record"}, "F/no-generate/record")
     add_entry(P, {"part": "F", "sections": None, "idl": "empty"}, "F/no-generate/empty")
 
+    # ---- I: malformed values x sources x combinations ----------------------------------------------------------
+    for i in range(ctx.n(14, 120)):
+        r = random.Random(f"{seed}/c17/I/{i}")
+        tree = cfgsys.TreeGen(r, p_optional=r.choice([0.15, 0.4]), plain=True).tree()
+        for j, a in enumerate(cfgsys.malformed_assignments(r, tree, rot=i + ctx.seed)):
+            add_entry(P, {"part": "I", "tree": tree, "assignment": a, "rot": i + 3 * j + ctx.seed}, f"I/{i}/{a['kind']}@{a['named']}")
+
     # ---- H: histories on one API object ----------------------------------------------------------------------
     for label, h in gen_histories(ctx):
         add_entry(P, {"part": "H", **h}, label)
@@ -562,6 +587,73 @@ def ready_options(sections):
 
 
 READY_TARGETS = ["cpp", "java", "objc", "cppcli", "yaml", "jni", "bogus"]
+
+
+FILE_SOURCES = ["file:json", "file:yaml", "file:toml", "file:yml"]
+ALL_SOURCES = ["dict", "opts", "file:json", "file:yaml", "file:yml", "file:toml", "env", "ENV", "dotenv"]
+
+
+def rank(src: str) -> int:
+    return cfgsys.SOURCE_RANK[src.split(":")[0].lower()]
+
+
+def malformed_variants(tree: dict, a: dict, rot: int, sources=None, explicit: str = "dict") -> list:
+    """(name, case, expectation) for one malformed assignment of a valid tree.
+    `bad@S`: the assignment through source S, the rest of the tree through another source            -> refused
+    `bad@L<good@H`: the bad value in L, a valid value for the same key in a source H of higher precedence -> accepted (= the valid tree)
+    `good@L<bad@H`: the other way round                                                                -> refused
+    A source that cannot express its part (a number has no `-o` / environment spelling, TOML has no null and no text that is not
+    Unicode, a lone surrogate other than U+DC80..U+DCFF cannot be in the environment, …) is left out.
+    `sources`: the sources in play (default: all); `explicit`: the explicit source the rest of the tree travels through when the part under
+    test is in a file / the environment (`dict` for the API, `opts` for the command line)."""
+    sources = list(sources or ALL_SOURCES)
+    path, bad, good = a["path"], a["bad"], a["good"]
+    rest = cfgsys.without_path(tree, path)
+    bad_part = cfgsys.from_leaves([(tuple(path), bad)])
+    textual = lambda src: src == "dict" or src.startswith("file:") or a["text"]
+    out = []
+    styles = lambda fmt: sorted(cfgsys.STYLES[fmt])
+
+    def styled_src(src, k):
+        """every third time a file is written in another lexical style of its format"""
+        if src.startswith("file:") and k % 3 == 2:
+            fmt = src[5:]
+            return src + "~" + styles(fmt)[(k // 3) % len(styles(fmt))]
+        return src
+    for k, src in enumerate(sources):
+        if not textual(src) or (rank(src) <= 1 and (len(path) < 2 or path[0] not in ("generate", "build", "package"))):
+            continue
+        carrier = explicit if src != "dict" and src != "opts" else FILE_SOURCES[(rot + k) % len(FILE_SOURCES)]
+        case = cfgsys.source_case({styled_src(src, rot + k): bad_part, carrier: rest})
+        if case is not None:
+            out.append((f"bad@{src}", case, "refused"))
+    if good == cfgsys.ABSENT:
+        return out
+    good_part = cfgsys.from_leaves([(tuple(path), good)])
+    pairs = [(lo, hi) for lo in sources for hi in sources if rank(lo) < rank(hi)]
+    # every pair of precedence levels, the concrete sources in rotation
+    by_levels = {}
+    for lo, hi in pairs:
+        by_levels.setdefault((rank(lo), rank(hi)), []).append((lo, hi))
+    chosen = [ps[(rot + n) % len(ps)] for n, ps in enumerate(by_levels.values())]
+    for lo, hi in chosen:
+        for which, lo_part, hi_part, expect in (("bad@{lo}<good@{hi}", bad_part, good_part, "accepted"), ("good@{lo}<bad@{hi}", good_part, bad_part, "refused")):
+            bad_src = lo if expect == "accepted" else hi
+            if not textual(bad_src) or (rank(lo) <= 1 and len(path) < 2):
+                continue
+            # the rest of the tree travels with the part that is in a file or a dictionary; otherwise through a third source
+            parts = {lo: lo_part, hi: hi_part}
+            home = next((x for x in (hi, lo) if x in ("dict", explicit) or x.startswith("file:")), None)
+            if home is not None:
+                parts[home] = cfgsys.from_leaves(cfgsys.leaves(rest) + cfgsys.leaves(parts[home]))
+            elif rank(hi) == 3:
+                parts["file:json"] = rest
+            else:
+                parts[explicit] = rest
+            case = cfgsys.source_case(parts)
+            if case is not None:
+                out.append((which.format(lo=lo, hi=hi), case, expect))
+    return out
 
 
 def add_entry(P: Plan, e: dict, label: str):
@@ -671,6 +763,11 @@ def add_entry(P: Plan, e: dict, label: str):
         else:
             case = {"options": tree}
         it["variants"].append({"name": src, "case": case, "job": P.job("configure", case), "req": P.req(model_request(case))})
+    elif part == "I":
+        for name, case, expect in malformed_variants(e["tree"], e["assignment"], e.get("rot", 0)):
+            it["variants"].append({"name": name, "case": case, "expect": expect, "job": P.job("configure", case), "req": P.req(model_request(case))})
+        ref = cfgsys.set_path(e["tree"], e["assignment"]["path"], e["assignment"]["good"]) if e["assignment"]["good"] != cfgsys.ABSENT else e["tree"]
+        it["ref"] = P.job("configure", {"options": ref})
     elif part == "F":
         case = {"options": ready_options(e["sections"]), "idl": e["idl"], "targets": READY_TARGETS}
         it["job"] = P.job("ready", case)
@@ -689,6 +786,7 @@ def run(ctx):
     ctx.coverage["rule"] = ("A: distinct option lists; B: distinct (tree, spelling); C: distinct (base, override, spelling); D: every (file state, options class); "
                             "E: distinct (tree, corruption, source); F: distinct (generator subset, declaration kinds) x 7 target names x clean; "
                             "G: distinct (unit tree with an edge text in every free-text setting, spelling), all rotations = every (free-text setting, edge text) pair; "
+                            "I: distinct (tree, malformed assignment, delivery: bad@source | bad@low<good@high | good@low<bad@high); "
                             "B, C, G: a spelling includes the lexical style of the file (`format~style`); H: distinct (contexts, request sequence, IDL), one evaluation per request; "
                             "non-trivial = more than one option / more than the required keys / a non-empty override / a non-default file state / >= 1 generator section")
     ctx.assumptions += [
@@ -697,6 +795,9 @@ def run(ctx):
         "environment variables are only compared for names below the sections generate/build/package (others are ignored by pydantic-settings)",
         "`.env` lines are written single-quoted: texts with a quote, a line break, a backslash or `${` are not given through the `.env` file",
         "lexical styles: only texts that the format's own decoder (PyYAML safe_load / json / tomllib) reads back as exactly the tree are used",
+        "malformed values x sources: a value travels through a source only if the source delivers it as it is (a number / null / nested list has no `-o`, "
+        "environment or `.env` spelling; TOML has no null and no text that is not Unicode; only U+DC80..U+DCFF can be in the environment; `.env` files are UTF-8 text); "
+        "variables outside the sections generate/build/package are ignored by pydantic-settings and not used; a lone surrogate U+D800+i is U+E000+i on the model's side",
         "histories: contexts are made from options dicts; which context's settings the generators worked with is read off the output directories written",
     ]
     cfgsys.register("cliopts", lambda base, case: cfgsys.cli_options(case["args"]))
@@ -716,7 +817,7 @@ def run(ctx):
     for r_, (k_, c_) in zip(results, P.jobs):
         if r_.get("kind") == "harness-error":
             raise RuntimeError(f"harness error in {k_}: {r_}")
-    answers = ctx.driver.batch(P.reqs)
+    answers = cfgsys.pua2sur(ctx.driver.batch(cfgsys.sur2pua(P.reqs)))
     for a, q in zip(answers, P.reqs):
         if "error" in a:
             raise RuntimeError(f"driver error {a} for {json.dumps(q)[:300]}")
@@ -753,9 +854,11 @@ def run(ctx):
         ctx.stats["correspondence_first"] = breaks[0]["what"]
 
 
-def expected_from_model(m: dict, orc) -> dict:
+def expected_from_model(m: dict, orc, env_refused=()) -> dict:
     """model outcome + validation oracle -> the observation the model predicts"""
     if m["kind"] == "ok":
+        if env_refused:
+            return {"kind": "app", "code": 141}
         o = orc(m["value"])
         if o["kind"] == "ok":
             return {"kind": "ok", "dump": o["dump"], "fields_set": o["fields_set"]}
@@ -781,7 +884,7 @@ class SpecCalls:
         return self.cache[k]
 
     def flush(self):
-        for req, a in zip(self.pending, self.driver.batch(self.pending)):
+        for req, a in zip(self.pending, cfgsys.pua2sur(self.driver.batch(cfgsys.sur2pua(self.pending)))):
             self.cache[cfgsys.canon(req)] = a
         self.pending = []
 
@@ -915,6 +1018,9 @@ def evaluate(ctx, it, results, answers, orc, targets, breaks, spec):
         elif part == "D":
             nt = e["file"] is not None
             key = ("D", e["label"])
+        elif part == "I":
+            nt = True
+            key = ("I", cfgsys.canon([e["tree"], e["assignment"]]), v["name"])
         else:
             nt = True
             key = ("E", cfgsys.canon(e["tree"]), e["corruption"], v["name"])
@@ -924,7 +1030,12 @@ def evaluate(ctx, it, results, answers, orc, targets, breaks, spec):
             if cfgsys.canon(o["merged"]) != cfgsys.canon(m["explicit"]):
                 breaks.append({"what": "c17.configure (explicit merge) vs the dict handed to model_validate", "entry": e, "variant": v["name"], "model": m["explicit"], "impl": o["merged"]})
         # correspondence 2: outcome (through the validation oracle)
-        exp = expected_from_model(m, orc)
+        exp = expected_from_model(m, orc, env_refused(case))
+        if m.get("unencodable") and o["kind"] == "app" and same_obs(exp, o):
+            # the key the refusal names: one of those the model's `require_encodable_text` can name
+            named = cfgsys.named_keys_of(o.get("msg"))
+            if not any(k in m["unencodable"] for k in named):
+                breaks.append({"what": "c17.configure (badKeysKids) vs the key the refusal names", "entry": e, "variant": v["name"], "model": m["unencodable"], "impl": brief(o)})
         if not same_obs(exp, o):
             breaks.append({"what": "c17.configure + validation oracle vs API.configure", "entry": e, "variant": v["name"], "model": brief(exp), "impl": brief(o),
                            "model_tree": m.get("value")})
@@ -975,6 +1086,8 @@ def evaluate(ctx, it, results, answers, orc, targets, breaks, spec):
             if not same_obs(names["file+dict"], names["file+opts"]):
                 fail("sources:override-opts-differs", "the same override as options dict and as `-o` options yields different configurations",
                      {"dict": brief(names["file+dict"]), "opts": brief(names["file+opts"])})
+    elif part == "I":
+        evaluate_malformed(ctx, it, obs, results, fail)
     elif part == "E":
         o = obs[0]
         kind = e["corruption"]
@@ -987,6 +1100,56 @@ def evaluate(ctx, it, results, answers, orc, targets, breaks, spec):
                 fail(f"config:{kind}-accepted", f"a configuration corrupted by '{kind}' was accepted", {"corruption": kind, "impl": brief(o)})
         elif o["kind"] == "app" and o["code"] != 141:
             fail("config:corruption-wrong-code", f"corruption '{kind}' refused with {o['code']}, not the configuration diagnostic", {"impl": brief(o)})
+
+
+def evaluate_malformed(ctx, it, obs, results, fail):
+    """(S5) the verdict follows the effective configuration, which is known by construction: the bad value is in it unless a source of
+    higher precedence replaces it"""
+    e = it["entry"]
+    a = e["assignment"]
+    kind = a["kind"]
+    ref = results[it["ref"]]
+    if ref["kind"] != "ok":
+        fail("sources:valid-tree-refused", "a tree generated from the schema (with a valid value for the key under test) was refused as options dict", {"impl": brief(ref)})
+        return
+    for v, o in zip(it["variants"], obs):
+        name, case = v["name"], v["case"]
+        where = {"variant": name, "malformed": kind, "config_key": a["named"], "case": case, "impl": brief(o)}
+        ctx.stat(f"I_{name.split('@')[0]}_{kind}_{o['kind']}")
+        if o["kind"] == "crash":
+            continue        # (reported above)
+        if v["expect"] == "refused":
+            if o["kind"] == "ok":
+                if kind in UNKNOWN_KEY_KINDS:
+                    fail("config:unknown-nested-key-accepted", "an unknown key below a section is accepted silently", where)
+                elif kind.startswith("not-encodable"):
+                    fail("config:not-encodable-text-accepted", f"a {'key' if kind.endswith('key') else 'text'} that is not valid Unicode ({ascii(a['path'][-1] if kind.endswith('key') else a['bad'])} "
+                         f"at '{a['named']}') is accepted when it comes through {name}: it can neither be written to a generated file nor be used in a file name", where)
+                else:
+                    fail(f"config:{kind}-accepted", f"a configuration with the malformed value {a['bad']!r} at '{a['named']}' ({kind}) was accepted through {name}", where)
+            elif not (o["kind"] == "app" and o["code"] == 141):
+                fail("config:corruption-wrong-code", f"malformed value ({kind}) through {name} refused with {o.get('code')}, not the configuration diagnostic", where)
+            elif not names_key(o.get("msg"), a["named"]):
+                src = name.split("@")[-1]
+                fail("config:diagnostic-names-no-key:environment" if (src.lower() in ("env", "dotenv") and env_refused(case)) else "config:diagnostic-does-not-name-key",
+                     f"the diagnostic for the malformed value at '{a['named']}' ({kind}, through {name}) does not name that key", where)
+        else:
+            if o["kind"] != "ok":
+                if env_refused(case):
+                    fail("sources:overridden-env-value-refused", f"the environment holds a text for the list-typed key '{a['named']}' that is no JSON, and a source of higher "
+                         f"precedence sets the key to a valid value ({name}): the configuration is refused all the same", where)
+                else:
+                    fail("sources:overridden-value-refused", f"the malformed value at '{a['named']}' ({kind}) is replaced by a valid one in a source of higher precedence ({name}): "
+                         f"the effective configuration is valid, but it was refused", where)
+            elif not same_obs(ref, o):
+                la, lb = dict(cfgsys.leaves(ref["dump"])), dict(cfgsys.leaves(o["dump"]))
+                diff = [(".".join(k), la.get(k), lb.get(k)) for k in sorted(set(la) | set(lb)) if la.get(k) != lb.get(k)][:5]
+                fail("sources:override-differs", f"{name}: the effective configuration is not the valid tree's", {**where, "differences": diff})
+
+
+def names_key(msg, named: str) -> bool:
+    """does the diagnostic name the key (or a key below it: an item of the list, a branch of the union)?"""
+    return any(k == named or k.startswith(named + ".") for k in cfgsys.named_keys_of(msg))
 
 
 def named_keys(msg: str | None) -> list[str]:
@@ -1101,6 +1264,8 @@ def crash_key(part, e, v, case, o) -> str:
         return "merge:dict-over-scalar-crash"
     if o.get("site", "").startswith("cli.py"):
         return "options:no-equals-crash" if any("=" not in x for x in case.get("cli_opts") or []) else "options:dict-over-scalar-crash"
+    if part == "I":
+        return "config:malformed-value-crash"
     return f"config:{part}-crash"
 
 
@@ -1119,7 +1284,7 @@ def replay(ctx, body):
     P = Plan()
     add_entry(P, body["entry"], "replay")
     results = cfgsys.run_pool(ctx.tmp, P.jobs, workers=1)
-    answers = ctx.driver.batch(P.reqs)
+    answers = cfgsys.pua2sur(ctx.driver.batch(cfgsys.sur2pua(P.reqs)))
     ojobs, idx = [], {}
     for it in P.items:
         for v in it["variants"]:
